@@ -813,7 +813,7 @@ class Runner:
 
     def preamble(self):
         out = ["Definition regs_std : list creg := %s." % c_list(
-            ["{| cr_allowed := %s; cr_strict := true |}" % ("None" if a is None else "(Some %s)" % c_list([c_cstr(x) for x in a])) for a in STD_REGS])]
+            ["{| cr_allowed := %s; cr_strict := true; cr_verify_all := true |}" % ("None" if a is None else "(Some %s)" % c_list([c_cstr(x) for x in a])) for a in STD_REGS])]
         for wname, world in self.worlds.items():
             wid = self.wid(wname)
             out.append("Definition im_%s : imm := %s." % (wid, c_list([c_kimm(self.kimm(n)) for n in world["keynames"]])))
@@ -857,6 +857,7 @@ class Runner:
         self._keys.random = shim
         ACCESS["keys"] = {id(k): i for i, k in enumerate(env.keys)}
         ACCESS["log"] = []
+        watch_registries({"registry[%d]" % i: r for i, r in enumerate(env.regs)})
         try:
             res, trace = self.sched.run([(lambda op=op: op.fn(env)) for op in ops], policy)
         finally:
@@ -934,7 +935,12 @@ class Runner:
                 ctx.violation({"kind": "token-invalid-under-interleaving"},
                               "a token produced under the interleaving is not accepted by fresh keys: %r (%s, world %s)" % (
                                   e, [o.name for o in ops], wname), dict(replay, token=t[1] if t[0] == "jwe" else t[0]))
+        wr = take_registry_writes()
+        if wr:
+            ctx.violation({"kind": "shared-object-written", "object": "caller-registry attribute (during the call)", "attr": wr[0][1]},
+                          "a call of %r wrote attribute(s) %r of a shared registry (world %s)" % ([o.name for o in ops], sorted({(w0, a) for w0, a, _ in wr}), wname), replay)
         for tok, alg, enc in env.jwe_tokens:
+            note_random(ctx, tok, "%s in world %s, schedule %r" % ([o.name for o in ops], wname, replay["schedule"][:20]))
             good = False
             for fk in fresh.keys:
                 try:
@@ -1288,6 +1294,90 @@ def verdict(f):
         return ["err", exn_class(e)]
 
 
+# every value the library draws per call and that is visible in a token: content IV, encrypted key, key-wrap iv / tag
+# (A*GCMKW), PBES2 salt, ephemeral public key.  Two calls -- sequential, concurrent, or in different processes forked from the
+# same import -- must never produce the same value.
+RAND_POOL = {}
+
+
+def rand_values(token):
+    vals = []
+
+    def hdr(h, where):
+        for f in ("iv", "tag", "p2s"):
+            if isinstance(h.get(f), str) and h[f]:
+                vals.append(("%s header %s" % (where, f), h[f]))
+        if isinstance(h.get("epk"), dict):
+            vals.append(("%s header epk" % where, json.dumps(h["epk"], sort_keys=True)))
+    try:
+        if isinstance(token, str):
+            parts = token.split(".")
+            if len(parts) != 5:
+                return []
+            hdr(json.loads(lib_b64(parts[0])), "protected")
+            if parts[1]:
+                vals.append(("encrypted_key", parts[1]))
+            vals.append(("content iv", parts[2]))
+        elif isinstance(token, dict) and "ciphertext" in token:
+            if token.get("protected"):
+                hdr(json.loads(lib_b64(token["protected"])), "protected")
+            hdr(token.get("unprotected") or {}, "unprotected")
+            vals.append(("content iv", token.get("iv")))
+            for i, r in enumerate(token.get("recipients") or [token]):
+                hdr(r.get("header") or {}, "recipient")
+                if r.get("encrypted_key"):
+                    vals.append(("encrypted_key", r["encrypted_key"]))
+    except Exception:   # noqa
+        return []
+    return vals
+
+
+def note_random(ctx, token, origin):
+    """-> True when a per-call random value of this token was already produced by another call"""
+    dup = False
+    for name, v in rand_values(token):
+        k = (name, v)
+        if k in RAND_POOL and RAND_POOL[k] != origin:
+            dup = True
+            ctx.violation({"kind": "randomness-reused", "value": name},
+                          "two calls produced the same %s %r: %s and %s" % (name, v[:40], RAND_POOL[k], origin),
+                          {"kind": "randomness", "first": RAND_POOL[k], "second": origin, "value": name})
+        RAND_POOL.setdefault(k, origin)
+    return dup
+
+
+# attribute writes on the registry instances the harness shares: a call must not write them, not even temporarily
+REG_WATCH = {"ids": {}, "writes": []}
+
+
+def install_registry_trap():
+    from joserfc.jws import JWSRegistry
+    from joserfc.jwe import JWERegistry
+    from joserfc.rfc7797.registry import JWSRegistry as R7797
+    for cls in (JWSRegistry, JWERegistry, R7797):
+        if getattr(cls.__setattr__, "_c20_trap", False):
+            continue
+
+        def trap(self, name, value, _cls=cls):
+            who = REG_WATCH["ids"].get(id(self))
+            if who is not None:
+                REG_WATCH["writes"].append((who, name, getattr(_TLS, "tid", None)))
+            object.__setattr__(self, name, value)
+        trap._c20_trap = True
+        cls.__setattr__ = trap
+
+
+def watch_registries(named):
+    install_registry_trap()
+    REG_WATCH["ids"] = {id(r): n for n, r in named.items() if r is not None}
+    REG_WATCH["writes"] = []
+
+
+def take_registry_writes():
+    w, REG_WATCH["writes"] = REG_WATCH["writes"], []
+    return w
+
+
 def build_shared():
     """the registry instances the harness creates ONCE and shares between all calls of a history / schedule set"""
     return {(kind, i): make_registry(kind, r) for kind, regs in REGS.items() for i, r in enumerate(regs)}
@@ -1328,14 +1418,16 @@ def exec_spec(spec, specs, shared=None):
     if op == "jwe_enc":
         hdr = dict({"alg": spec["alg"], "enc": spec["enc"]}, **spec.get("extra", {}))
         reg = make_registry("jwe", spec.get("reg"))
-        r = verdict(lambda: jwe.encrypt_compact(hdr, spec["pt"].encode(), key, registry=reg, **akw))
+        skw = {"sender_key": specs[spec["sender"]][0]()} if spec.get("sender") else {}
+        r = verdict(lambda: jwe.encrypt_compact(hdr, spec["pt"].encode(), key, registry=reg, **akw, **skw))
         if r[0] == "ok":
             out["token"] = r[1]
             r = ["ok", "token"]
         out["v"] = r
     elif op == "jwe_dec":
         reg = make_registry("jwe", spec.get("reg"))
-        out["v"] = verdict(lambda: jwe.decrypt_compact(spec["token"], key, registry=reg, **akw).plaintext.decode("latin1"))
+        skw = {"sender_key": specs[spec["sender"]][0]()} if spec.get("sender") else {}
+        out["v"] = verdict(lambda: jwe.decrypt_compact(spec["token"], key, registry=reg, **akw, **skw).plaintext.decode("latin1"))
     elif op == "jwe_enc_json":
         from joserfc.jwe import GeneralJSONEncryption
         reg = make_registry("jwe", spec.get("reg"))
@@ -1386,7 +1478,7 @@ def open_spec(spec, token):
     if spec["op"] == "jwt_encode":
         return {"op": "jwt_decode", "key": peer, "token": token, "reg": reg, "rkind": spec["rkind"]}
     if spec["op"] == "jwe_enc":
-        return {"op": "jwe_dec", "key": peer, "token": token, "reg": reg}
+        return dict({"op": "jwe_dec", "key": peer, "token": token, "reg": reg}, **({"sender": spec["sender"]} if spec.get("sender") else {}))
     if spec["op"] == "jwe_enc_json":
         return {"op": "jwe_dec_json", "key": peer, "token": token, "reg": dict(reg, verify_all=False)}
     return {"op": "jws_verify", "key": peer, "token": token, "reg": reg, "b64": spec.get("b64")}
@@ -1515,9 +1607,9 @@ def deep_snapshot(objs):
 
 
 REGS_JWE = [None, {"headers": ["custom"]}, {"headers": ["custom"], "strict": False}, {"headers": ["other"], "verify_all": False},
-            {"algorithms": ["A128GCMKW", "PBES2-HS256+A128KW", "ECDH-ES", "ECDH-ES+A128KW", "dir", "A128KW", "RSA-OAEP",
+            {"algorithms": ["A128GCMKW", "PBES2-HS256+A128KW", "ECDH-ES", "ECDH-ES+A128KW", "dir", "A128KW", "RSA-OAEP", "A256GCMKW", "ECDH-1PU", "ECDH-1PU+A128KW",
                             "A128CBC-HS256", "A128GCM", "A256GCM", "C20P"]},
-            {"headers": ["custom"], "algorithms": ["A128GCMKW", "PBES2-HS256+A128KW", "ECDH-ES", "ECDH-ES+A128KW", "dir", "A128KW",
+            {"headers": ["custom"], "algorithms": ["A128GCMKW", "PBES2-HS256+A128KW", "ECDH-ES", "ECDH-ES+A128KW", "dir", "A128KW", "A256GCMKW", "ECDH-1PU", "ECDH-1PU+A128KW",
                                                    "A128CBC-HS256", "A128GCM", "C20P"]},
             {"strict": False, "verify_all": False}]
 REGS_JWS = [None, {"headers": ["custom"]}, {"headers": ["custom"], "strict": False}, {"algorithms": ["HS256", "HS384", "ES256", "EdDSA", "RS256", "PS256"]},
@@ -1536,7 +1628,7 @@ def algs_arg(rng, spec):
     return list(sh) if sh is not None else None
 
 
-JWE_ALGS = [("A128GCMKW", "oct16_0"), ("PBES2-HS256+A128KW", "oct0"), ("ECDH-ES", "ec0pub"), ("ECDH-ES+A128KW", "ec0pub"),
+JWE_ALGS = [("A256GCMKW", "oct0"), ("ECDH-1PU", "ec0pub"), ("ECDH-1PU+A128KW", "ec0pub"), ("A128GCMKW", "oct16_0"), ("PBES2-HS256+A128KW", "oct0"), ("ECDH-ES", "ec0pub"), ("ECDH-ES+A128KW", "ec0pub"),
             ("dir", None), ("A128KW", "oct16_0"), ("RSA-OAEP", "rsapub")]
 JWE_ENCS = ["A128CBC-HS256", "A128GCM", "A256GCM", "C20P"]
 DIR_KEYS = {"A128CBC-HS256": ["oct0", "oct1"], "A128GCM": ["oct16_0", "oct16_1"], "A256GCM": ["oct0", "oct1"], "C20P": ["oct0", "oct1"]}
@@ -1555,16 +1647,29 @@ def registry_histories(ctx, specs, pristine):
         if r is not None:
             objs["caller-registry %s[%d]" % (kind, i)] = r
     before = deep_snapshot(objs)
+    watch_registries({"caller-registry %s[%d]" % k: r for k, r in shared.items()})
     pool = []          # (spec that opens it)
     dist = {}
     hist = []
-    n = ctx.scale(170, 1800)
+    n = ctx.scale(200, 1800)
     planned = []
+
+    def fix_spec(spec):
+        if str(spec.get("alg", "")).startswith("ECDH-1PU"):
+            spec["sender"] = "ec1"
+            if "+" in spec["alg"]:
+                spec["enc"] = "A128CBC-HS256"
+        return spec
+    # N calls, N distinct values: every alg family three times in a row with the same arguments on the same shared registry
+    for alg, kname in JWE_ALGS:
+        for rep in range(3):
+            enc = "A128GCM"
+            planned.append(fix_spec({"op": "jwe_enc", "alg": alg, "enc": enc, "key": kname or DIR_KEYS[enc][0], "pt": "same", "regi": 4}))
     for i, (alg, kname) in enumerate(JWE_ALGS):
         enc = JWE_ENCS[i % len(JWE_ENCS)]
         k = kname or DIR_KEYS[enc][0]
         for ri in ([4, 5] if i % 2 == 0 else [5, 4]):
-            planned.append({"op": "jwe_enc", "alg": alg, "enc": enc, "key": k, "pt": "planned", "regi": ri, "extra": {"custom": "v"}})
+            planned.append(fix_spec({"op": "jwe_enc", "alg": alg, "enc": enc, "key": k, "pt": "planned", "regi": ri, "extra": {"custom": "v"}}))
     # every entry point once with BOTH registry= and algorithms= on a shared registry, then with registry= alone
     for op, kind, ri, a1, a2, k in [("jws_sign", "jws", 1, "HS384", "HS256", "oct0"), ("jwt_encode", "jws", 2, "HS384", "HS256", "oct0"),
                                      ("jwe_enc", "jwe", 1, "A128GCMKW", "A128KW", "oct16_0"), ("jwt_encode", "jwe", 3, "A128GCMKW", "A128KW", "oct16_0")]:
@@ -1589,8 +1694,8 @@ def registry_histories(ctx, specs, pristine):
                 enc = rng.choice(JWE_ENCS)
                 if alg == "RSA-OAEP" and rng.random() < 0.7:
                     alg, kname = "A128KW", "oct16_0"
-                spec = rand_reg({"op": "jwe_enc", "alg": alg, "enc": enc, "key": kname or rng.choice(DIR_KEYS[enc]), "pt": "msg%d" % step,
-                                 "extra": rng.choice([{}, {"custom": "v"}, {"custom": "v"}, {"other": "w"}])}, "jwe")
+                spec = fix_spec(rand_reg({"op": "jwe_enc", "alg": alg, "enc": enc, "key": kname or rng.choice(DIR_KEYS[enc]), "pt": "msg%d" % step,
+                                          "extra": rng.choice([{}, {"custom": "v"}, {"custom": "v"}, {"other": "w"}])}, "jwe"))
             elif c == 4:
                 enc = rng.choice(JWE_ENCS)
                 spec = rand_reg({"op": "jwe_enc_json", "alg": "A128KW", "key": "oct16_0", "alg2": "ECDH-ES+A128KW", "key2": "ec0pub", "enc": enc,
@@ -1619,6 +1724,14 @@ def registry_histories(ctx, specs, pristine):
         out = exec_spec(spec, specs, shared)
         after = deep_snapshot(objs)
         hist.append(spec)
+        wr = take_registry_writes()
+        if wr:
+            ctx.violation({"kind": "shared-object-written", "object": "caller-registry attribute (during the call)", "attr": wr[0][1]},
+                          "the call %s wrote attribute(s) %r of a registry instance the caller shares (even if restored afterwards)" % (
+                              json.dumps({k: v for k, v in spec.items() if k != "token"}), sorted({(w0, a) for w0, a, _ in wr})),
+                          {"kind": "reg-history", "calls": hist[-12:]})
+        if out["token"] is not None:
+            note_random(ctx, out["token"], "call %d of the registry history (%s %s key %s)" % (step, spec["op"], spec.get("alg"), spec["key"]))
         ctx.note_case(("reg-history", step, json.dumps(spec, sort_keys=True)[:200]))
         dist[spec["op"] + ":" + str(spec.get("alg", ""))] = dist.get(spec["op"] + ":" + str(spec.get("alg", "")), 0) + 1
         d = diff_snapshot(before, after)
@@ -1658,7 +1771,22 @@ def shared_registry_schedules(ctx, specs, pristine):
     shared = build_shared()
     objs = {"caller-registry %s[%d]" % k: r for k, r in shared.items() if r is not None}
     base = deep_snapshot(objs)
+    watch_registries(objs)
     P = []
+    # decrypt_compact || decrypt_json (two recipients, the caller holds one key) and decrypt_compact || decrypt_compact on ONE
+    # JWERegistry(verify_all_recipients=False)
+    perm = {"algorithms": ["A128KW", "ECDH-ES+A128KW", "A128GCM"]}
+    tj = pristine.call({"op": "jwe_enc_json", "alg": "A128KW", "key": "oct16_0", "alg2": "ECDH-ES+A128KW", "key2": "ec0pub", "enc": "A128GCM", "pt": "J", "reg": perm})
+    tc = [pristine.call({"op": "jwe_enc", "alg": "A128KW", "enc": "A128GCM", "key": "oct16_0", "pt": "C%d" % i, "reg": perm}) for i in range(2)]
+    if tj["token"] is None or any(t["token"] is None for t in tc):
+        raise RuntimeError("shared-registry decrypt pair: producers fail in the pristine process")
+    for ri in (6, 3):
+        DJ = {"op": "jwe_dec_json", "key": "oct16_0", "token": tj["token"], "regi": ri}
+        DC = [{"op": "jwe_dec", "key": "oct16_0", "token": t["token"], "regi": ri} for t in tc]
+        P.append(("jwe_dec||jwe_dec_json/verify_all=False[%d]" % ri, DC[0], DJ))
+        if ri == 6 or not ctx.quick:
+            P.append(("jwe_dec||jwe_dec/verify_all=False[%d]" % ri, DC[0], DC[1]))
+            P.append(("after: jwe_dec_json||jwe_dec_json/verify_all=False[%d]" % ri, DJ, DJ))
     for op, kind, ri, a1, a2, k, extra in [
             ("jws_sign", "jws", 1, "HS384", "HS256", "oct0", {}), ("jws_sign", "jws7797", 1, "HS384", "HS256", "oct0", {"b64": True}),
             ("jwt_encode", "jws", 2, "HS384", "HS256", "oct0", {"rkind": "jws"}),
@@ -1693,6 +1821,13 @@ def shared_registry_schedules(ctx, specs, pristine):
                                    "schedule": [t for t, _ in trace]})
                 elif out["token"] is not None:
                     pending.append((open_spec(spec, out["token"]), spec))
+                    note_random(ctx, out["token"], "%s call %s %s (%d tokens before)" % (name, "AB"[i], what, len(pending)))
+            wr = take_registry_writes()
+            if wr:
+                ctx.violation({"kind": "shared-object-written", "object": "caller-registry attribute (during the call)", "attr": wr[0][1]},
+                              "%s: a call wrote attribute(s) %r of the registry instance both calls share (even if restored afterwards)" % (
+                                  name, sorted({(w0, a) for w0, a, _ in wr})),
+                              {"kind": "reg-schedule", "pair": name, "schedule": [t for t, _ in trace]})
         th = lambda: [lambda: exec_spec(A, specs, shared), lambda: exec_spec(B, specs, shared)]
         res, trace = sched.run(th(), seg_policy([], False))
         nrun += 1
@@ -1862,6 +1997,8 @@ def singleton_schedules(ctx, specs, pristine, only=None):
                     how = "verdict %r instead of %r" % (out["v"], want)
                     if not bad and out["token"] is not None:
                         pending.append((open_spec(spec, out["token"]), spec, i, what, [t for t, _ in trace], [lab for t, lab in trace if t == i][-3:]))
+                        if spec["op"].startswith("jwe"):
+                            note_random(ctx, out["token"], "%s %s thread %d %s (#%d)" % (name, kind, i, what, len(pending)))
                     if bad:
                         ctx.violation({"kind": "singleton-race" if what == "interleaved" else "singleton-poisoned", "pair": name.split("/")[-1], "phase": kind},
                                       "%s: thread %d (%s %s with key %s) %s: %s (other thread: %s with key %s; last steps %r)" % (
@@ -1923,6 +2060,9 @@ def run(ctx):
     for m in pkgutil.walk_packages(joserfc.__path__, "joserfc."):
         importlib.import_module(m.name)       # import time: every module registers its algorithms now
     from joserfc.drafts.jwe_chacha20 import register_chaha20_poly1305
+    from joserfc.drafts.jwe_ecdh_1pu import register_ecdh_1pu
+    register_ecdh_1pu()
+    RAND_POOL.clear()
     register_chaha20_poly1305()          # registration time: C20P / XC20P join the class tables before anything is snapshotted
     mat = KeyMaterial(ctx.rng)
     specs0 = key_specs(mat)
@@ -2022,7 +2162,8 @@ def _run(ctx, ok, log, mat, pristine):
     ra = eva.run(runner.acc_cases, jobs=8)
     evp = lib.CoqEval(["From Model Require Import Base PyVal TableTypes C20Model C20Cases."], "c20acc", "c20acc_pattern", None,
                       shard=120, max_chars=400000, preamble=runner.preamble())
-    rp = evp.run(runner.acc_cases, jobs=8)
+    # the pattern-only pass is needed when the access-level comparison stands alone; otherwise only in the thorough tier
+    rp = evp.run(runner.acc_cases if (not runner.table_ok or not ctx.quick) else runner.acc_cases[:60], jobs=8)
     ctx.coverage["access_level"] = {"cases": ra["evaluated"], "outcome_disagreements": len(ra["failing"]),
                                     "access_pattern_not_the_models": len(rp["failing"]), "line_table_matches_source": runner.table_ok}
     ctx.coverage["traces_validated_against_impl"] += ra["evaluated"]
@@ -2070,7 +2211,9 @@ def replay(path):
         for m in pkgutil.walk_packages(joserfc.__path__, "joserfc."):
             importlib.import_module(m.name)
         from joserfc.drafts.jwe_chacha20 import register_chaha20_poly1305
+        from joserfc.drafts.jwe_ecdh_1pu import register_ecdh_1pu
         register_chaha20_poly1305()
+        register_ecdh_1pu()
         mat = KeyMaterial(ctx.rng)
         specs = key_specs(mat)
         pristine = Pristine(lambda spec: exec_spec(spec, specs))
